@@ -4,6 +4,8 @@ import (
 	"encoding/json"
 	"fmt"
 	"os"
+
+	"github.com/echovault/sugardb/verifrt"
 )
 
 // replayMain re-executes a recorded SEQ violation without the explorer and
@@ -29,6 +31,16 @@ func replayMain(args []string) int {
 		return 2
 	}
 	fmt.Printf("property %s\nsignature %s\nrecorded: %s\n", f.Property, f.Signature, f.Detail)
+	var cr struct {
+		Cfg     InstCfg  `json:"cfg"`
+		History []Action `json:"history"`
+		Cut     *int     `json:"cut"`
+		Torn    int      `json:"torn"`
+		Dropped []int    `json:"dropped"`
+	}
+	if err := json.Unmarshal(f.Replay, &cr); err == nil && cr.Cut != nil && len(cr.History) > 0 {
+		return replayCrash(cr.Cfg, cr.History, *cr.Cut, cr.Torn, cr.Dropped)
+	}
 	var r SeqReplay
 	if err := json.Unmarshal(f.Replay, &r); err != nil || (len(r.Path) == 0 && r.Last.K == "") {
 		fmt.Println("(no sequential replay recorded for this kind of finding; see the 'replay' field)")
@@ -55,4 +67,66 @@ func replayMain(args []string) int {
 
 func selftestMain(args []string) int {
 	return runSelftests()
+}
+
+// replayCrash re-executes a history on the journalling file system, builds the recorded crash image,
+// recovers it with a fresh server and prints what it finds, then does the durable-again continuation.
+func replayCrash(cfg InstCfg, hist []Action, cut, torn int, dropped []int) int {
+	run, wld, err := runHistory(cfg, nil, hist)
+	if err != nil {
+		fmt.Fprintln(os.Stderr, err)
+		return 2
+	}
+	wld.Close()
+	for i, a := range hist {
+		if i < len(run.Outs) {
+			fmt.Printf("  %-40s -> %s\n", a, run.Outs[i].Brief())
+		}
+	}
+	fmt.Printf("journal (%d entries), crash before entry %d (torn bytes %d, dropped %v):\n", len(run.Journal), cut, torn, dropped)
+	for i, op := range run.Journal {
+		mark := "  "
+		if i == cut {
+			mark = "->"
+		}
+		d := ""
+		if op.Kind == verifrt.FSWrite {
+			d = fmt.Sprintf(" off=%d %q", op.Off, firstN(string(op.Data), 70))
+		}
+		if op.Kind == verifrt.FSMark {
+			d = " " + op.Tag
+		}
+		fmt.Printf("  %s %3d %-8s %s%s\n", mark, i, op.Kind, op.Path, d)
+	}
+	dm := map[int]bool{}
+	for _, d := range dropped {
+		dm[d] = true
+	}
+	img := run.build(cut, torn, dm)
+	for p, b := range img.Files() {
+		fmt.Printf("image file %s (%d bytes): %q\n", p, len(b), firstN(string(b), 300))
+	}
+	rec := recoverImage(cfg, img)
+	switch {
+	case rec.Panic != "" || rec.Hang:
+		fmt.Printf("recovery PANIC/HANG: %s\n", firstN(rec.Panic, 800))
+		return 0
+	case rec.StartErr != "":
+		fmt.Printf("recovery failed: %s\n", rec.StartErr)
+		return 0
+	}
+	fmt.Printf("recovered dataset: %s\n", rec.Alpha)
+	for j, st := range run.States {
+		if st != nil {
+			fmt.Printf("  dataset after %d commands: %s\n", j+1, st.Alpha)
+		}
+	}
+	o := rec.World.Do(cmd("SET", "zz", "after"))
+	fmt.Printf("  SET zz after -> %s\n", o.Brief())
+	o2 := rec.World.Do(Action{K: "restart"})
+	fmt.Printf("  restart -> %s\n", o2.Brief())
+	if !rec.World.Dead() {
+		fmt.Printf("dataset after recovery + write + clean restart: %s\n", rec.World.State().Alpha)
+	}
+	return 0
 }
